@@ -1825,11 +1825,11 @@ func mkValueMtEntry(h Hasher, v interface{}) (*big.Int, error) {
 	case int:
 		return mkValueInt(h, et)
 	case uint64:
-		return mkValueUInt(et)
+		return mkValueUInt(h, et)
 	case uint32:
-		return mkValueUInt(et)
+		return mkValueUInt(h, et)
 	case uint:
-		return mkValueUInt(et)
+		return mkValueUInt(h, et)
 	case bool:
 		return mkValueBool(h, et)
 	case string:
@@ -1844,15 +1844,12 @@ func mkValueMtEntry(h Hasher, v interface{}) (*big.Int, error) {
 }
 
 func mkValueInt[I int64 | int32 | int](h Hasher, val I) (*big.Int, error) {
-	if val >= 0 {
-		return big.NewInt(int64(val)), nil
-	} else {
-		return new(big.Int).Add(h.Prime(), big.NewInt(int64(val))), nil
-	}
+	// the same range applies whatever Go type carries the integer
+	return mkValueBigInt(h, big.NewInt(int64(val)))
 }
 
-func mkValueUInt[I uint64 | uint32 | uint](val I) (*big.Int, error) {
-	return new(big.Int).SetUint64(uint64(val)), nil
+func mkValueUInt[I uint64 | uint32 | uint](h Hasher, val I) (*big.Int, error) {
+	return mkValueBigInt(h, new(big.Int).SetUint64(uint64(val)))
 }
 
 func mkValueBool(h Hasher, val bool) (*big.Int, error) {
